@@ -87,6 +87,14 @@ def judge(pre, op, post, res, obs, meta):
                 anc = [rr.split("/")[:i] for i in range(1, rr.count("/") + 1)]
                 if any(ref.ignored(eff, "/".join(a), True) for a in anc):
                     V("create-touched-excluded-folder", f"{ops.label(op)}: {rel} {w} although a folder above it is excluded by {eff}", what=w)
+        if o.get("sf"):
+            # with -sf the histories in scope are those on the way from the root to a named entry (and those below a named folder)
+            for folder in sorted(got_manifest):
+                h = folder[5:-len("/ascmhl")] if folder != "root/ascmhl" else ""
+                on_the_way = any(h == "" or q == h or q.startswith(h + "/") or h.startswith(q + "/") for q in o["sf"])
+                if not on_the_way:
+                    V("create-sf-generation-in-unrelated-history", f"{ops.label(op)}: history '{h}' received a generation although none of the "
+                      f"named entries {o['sf']} lies in it")
         for p in sorted(created_ascmhl):
             # a run at R creates the history of R when there is none; it never founds a history anywhere else
             if p != ("root/" + R + "/ascmhl" if R else "root/ascmhl"):
